@@ -42,6 +42,8 @@ def run(ctx):
     ctx.clause("C17.3 one leaf predicate for counting and walking")
     ctx.clause("C17.4 growth keeps the parallel arrays in step and precedes every append")
     ctx.clause("C17.5 accessors and name lookup")
+    ctx.clause("C17.6 the reader's leaf arrays are filled only by the recursive walk, which every successful build_schema runs")
+    _only_the_walk(ctx)
     tr = P.fn("traverse_schema_recursive", FR)
     enumv = P.enum("carquet_field_repetition")
     for nm, v in (("CARQUET_REPETITION_REQUIRED", REQ), ("CARQUET_REPETITION_OPTIONAL", OPT),
@@ -311,3 +313,72 @@ def _eval_member(P, fn, expr, member, val):
     if it.new_forks or not isinstance(v, int):
         return None
     return v
+
+
+LEAF_ARRAYS = ("leaf_indices", "max_def_levels", "max_rep_levels")
+LEAF_WRITERS = {("src/metadata/schema.c", "carquet_schema_add_column"): "builder appends one leaf"}
+
+
+def _only_the_walk(ctx):
+    """C17.6: who may write the per-leaf arrays of a carquet_schema, and the walk is not bypassed."""
+    from ..rules.flow import find_path_avoiding, describe_path
+    P = ctx.P
+    n = 0
+    for fn in P.lib_functions():
+        for a in fn.body.walk():
+            tgt = None
+            if is_assign(a):
+                tgt = a.c[0].strip()
+            elif a.k == "CallExpr" and a.callee in ("memcpy", "memset", "memmove") and a.args():
+                tgt = a.args()[0].strip_casts()
+            if tgt is None:
+                continue
+            b = tgt
+            if b.k == "ArraySubscriptExpr":
+                b = b.c[0].strip_casts()
+            elif a.k != "CallExpr":
+                continue
+            if b.k != "MemberExpr" or b.name not in LEAF_ARRAYS or b.get("rec") != "carquet_schema":
+                continue
+            n += 1
+            k = (P.rel(fn.file), fn.name)
+            ctx.ob("R7.who-may-write", "leaf-array-writer|%s:%s|%s" % (k[0], k[1], b.name), P.where(a),
+                   "element stores into carquet_schema.%s happen only in the schema builder; the reader fills "
+                   "the arrays through the recursive walk" % b.name, k in LEAF_WRITERS, LEAF_WRITERS.get(k, ""))
+    ctx.floor("C17 direct leaf-array element stores", n, 3)
+    bs = P.fn("build_schema", FR)
+    cl = P.fn("compute_levels", FR)
+    tr = P.fn("traverse_schema_recursive", FR)
+    # every non-NULL return of build_schema has run compute_levels
+    rets = [r for r in bs.returns() if r.c and r.c[0] is not None and r.c[0].cv is None
+            and r.c[0].strip_casts().cv is None and r.c[0].strip_casts().strip().cv is None]
+    ids = set(r.i for r in rets)
+    path = find_path_avoiding(bs.cfg, lambda e: e.k == "CallExpr" and e.callee == "compute_levels", lambda e: e.i in ids)
+    ctx.ob("R6.must-pass", "walk-not-bypassed|%s:build_schema" % FR, P.where(bs.body),
+           "every successful return of build_schema has passed compute_levels", path is None and bool(rets),
+           "path: %s" % describe_path(bs, bs.cfg, path) if path else "")
+    # compute_levels reaches the walk on every path except the empty-schema guard
+    calls = cl.calls("traverse_schema_recursive")
+    early = [r for r in cl.returns()]
+    guards_ok = True
+    for r in early:
+        g = None
+        for a in r.ancestors():
+            if a.k == "IfStmt":
+                g = a
+                break
+        if g is None:
+            continue
+        c = Canon(cl, inline=False)([x for x in g.c if x is not None][0])
+        if not (c[0] == "bin" and c[1] in ("<=", "<") and c[3][0] == "int" and c[3][1] <= 1):
+            guards_ok = False
+    ctx.ob("R6.must-pass", "walk-not-bypassed|%s:compute_levels" % FR, P.where(cl.body),
+           "compute_levels runs the recursive walk unless the schema has no element beyond the root",
+           bool(calls) and guards_ok and len(early) <= 1)
+    # the walk stores def/rep/leaf index through its context
+    st = [a for a in tr.body.walk() if is_assign(a) and a.c[0].strip().k == "ArraySubscriptExpr"
+          and a.c[0].strip().c[0].strip_casts().k == "MemberExpr"]
+    names = sorted(set(a.c[0].strip().c[0].strip_casts().name for a in st))
+    ctx.ob("R6.must-pass", "walk-stores|%s:traverse_schema_recursive" % FR, P.where(tr.body),
+           "the walk stores the definition level, the repetition level and the element index of each leaf",
+           len(names) >= 3, str(names))
